@@ -66,6 +66,12 @@ type mashEvent struct {
 	Note  string    `json:"note"` // diagnostics only: what the driver did
 	Seed  int       `json:"hseed"`
 	Panic bool      `json:"panic"` // the call panicked (never expected inside the property's domain)
+	// events over millions of k-mers only: an index from rank to one place where a k-mer with that rank stands - invs[x-1] = number of
+	// the sequence (0: rank x does not occur in this event), invp[x-1] = position in the upper-cased sequence (> 0) or in its reverse
+	// complement (< 0), 1-based.  The specification checks the index against hf / hr and uses it to enumerate the canonical ranks in
+	// ascending order (TLC builds a set given in any other order by insertion).
+	Invs []int `json:"invs"`
+	Invp []int `json:"invp"`
 }
 
 // the driver's own strand arithmetic (upper-case ACGT only), independent of package sequtil
@@ -499,9 +505,30 @@ func mashDrive(args []string) error {
 			return out
 		}
 		for step, e := range evs {
-			tw.emit(mashEvent{Sid: sid, Step: step, Op: e.op, N: e.n, K: e.k, Fresh: e.fresh, Same: e.same,
+			ev := mashEvent{Sid: sid, Step: step, Op: e.op, N: e.n, K: e.k, Fresh: e.fresh, Same: e.same,
 				Seqs: proj(e.seqs), Seqs2: proj(e.seqs2), View: rk(e.view), D: e.d, DR: e.dr, JN: e.jn, JD: e.jd,
-				Full: e.full, Note: e.note, Seed: hseed, Panic: e.panicked})
+				Full: e.full, Note: e.note, Seed: hseed, Panic: e.panicked, Invs: []int{}, Invp: []int{}}
+			total := 0
+			for _, q := range ev.Seqs {
+				total += len(q.HF)
+			}
+			// (also in every fifth small session: there the specification compares the indexed enumeration with the plain one)
+			if (total > 100000 || sid%5 == 2) && len(ev.Seqs2) == 0 && (ev.Op == "sketch" || ev.Op == "add") {
+				ev.Invs, ev.Invp = make([]int, len(vals)), make([]int, len(vals))
+				for si, q := range ev.Seqs {
+					for i, x := range q.HF {
+						if ev.Invs[x-1] == 0 {
+							ev.Invs[x-1], ev.Invp[x-1] = si+1, i+1
+						}
+					}
+					for j, x := range q.HR {
+						if ev.Invs[x-1] == 0 {
+							ev.Invs[x-1], ev.Invp[x-1] = si+1, -(j + 1)
+						}
+					}
+				}
+			}
+			tw.emit(ev)
 		}
 	}
 	mash.Seed = 0
